@@ -152,6 +152,8 @@ def render(spec, t, cur, full, linkidx=None, absolute=False):
             return names[t[1]]['name']
         if k == 'uni':
             return '(%s)' % ','.join(go(a) for a in t[1:])
+        if k == 'isect':
+            return '%s %s' % (go(t[1]), go(t[2]))
         if k == 'neg':
             return '-(%s)' % go(t[1])
         if k == 'bin':
@@ -405,7 +407,7 @@ def tree_form(spec, t, cur):
             go(t[2]); go(t[3])
         elif k == 'neg':
             go(t[1])
-        elif k == 'uni':
+        elif k in ('uni', 'isect'):
             for a in t[1:]:
                 go(a)
         elif k == 'anchor':
@@ -680,6 +682,17 @@ def _agg_arg(draw, ctx):
         c1, c2 = min(k[3] for k in g), max(k[3] for k in g)
         return ['anchor', [b, s, r1, c1], [b, s, r1, c1, r2, c2]]
     a = draw(_range_arg(ctx))
+    if a[0] == 'rng' and len(a) == 2 and draw(st.integers(0, 7)) == 0:
+        b, s, r1, c1, r2, c2 = a[1]
+        if r2 > r1 or c2 > c1:
+            # two overlapping parts of the rectangle joined by the intersection operator (a blank)
+            if r2 > r1 and (c2 == c1 or draw(st.booleans())):
+                i = draw(st.integers(r1, r2))
+                j = draw(st.integers(r1, i))
+                return ['isect', ['rng', [b, s, r1, c1, i, c2]], ['rng', [b, s, j, c1, r2, c2]]]
+            i = draw(st.integers(c1, c2))
+            j = draw(st.integers(c1, i))
+            return ['isect', ['rng', [b, s, r1, c1, r2, i]], ['rng', [b, s, r1, j, r2, c2]]]
     if draw(st.integers(0, 5)) == 0 and a[0] in ('rng', 'ref'):
         b = draw(_range_arg(ctx))
         if b[0] in ('rng', 'ref') and b[1][:2] == a[1][:2]:
